@@ -323,6 +323,39 @@ func c16Check(c c16Case) *evid.Fail {
 			if len(pooled) > 0 {
 				pooled[a.Conn%len(pooled)].Close()
 			}
+		case "partial_pool_loss":
+			// one of a host's two pooled connections is lost and its replacement hangs in the handshake: the host
+			// still has a usable connection and must keep receiving its share of requests
+			if c.Conns < 2 || !w.member[h] || !w.up[h] {
+				continue
+			}
+			var pooled []*fakecass.Conn
+			for _, cn := range e.Cluster.Host(h).Conns() {
+				if !cn.IsRegistered() {
+					pooled = append(pooled, cn)
+				}
+			}
+			if len(pooled) < 2 {
+				continue
+			}
+			e.Cluster.SetHoldStartup(true)
+			pooled[a.Conn%len(pooled)].Close()
+			deadline := time.Now().Add(posWait)
+			for e.Cluster.HeldStartups() == 0 {
+				if time.Now().After(deadline) {
+					e.Cluster.ReleaseStartups()
+					return evid.Failf("no-reconnect-attempt", "a lost pooled connection of host %d was not re-dialled within %v", h, posWait)
+				}
+				time.Sleep(time.Millisecond)
+			}
+			got, f := w.probe(2*len(w.live()) + 2)
+			e.Cluster.ReleaseStartups()
+			if f != nil {
+				return f
+			}
+			if got[-1] > 0 || got[h] == 0 {
+				return evid.Failf("host-with-usable-connection-skipped", "host %d lost one of its two pooled connections (the replacement is still connecting); it still has a usable connection but the probes went to %v (-1 = error)", h, got)
+			}
 		case "drop_control":
 			for _, cn := range e.Cluster.RegisteredConns() {
 				cn.Close()
@@ -468,7 +501,7 @@ func c16Gen(rt *rapid.T) c16Case {
 	c := c16Case{Hosts: rapid.IntRange(1, 4).Draw(rt, "hosts"), Conns: rapid.IntRange(1, 2).Draw(rt, "conns")}
 	n := rapid.IntRange(1, evid.Pick(8, 15)).Draw(rt, "nactions")
 	ops := []string{"add_node", "remove_node", "restart_node", "drop_pooled", "drop_pooled", "drop_control", "drop_all", "drop_several", "silence_pooled", "silence_control",
-		"silence_inflight", "outage", "backoff", "event_then_failover"}
+		"silence_inflight", "outage", "backoff", "event_then_failover", "partial_pool_loss", "partial_pool_loss"}
 	added := 0
 	for i := 0; i < n; i++ {
 		a := c16Action{Op: ops[rapid.IntRange(0, len(ops)-1).Draw(rt, "op")], Host: rapid.IntRange(0, 7).Draw(rt, "host"), Conn: rapid.IntRange(0, 3).Draw(rt, "conn"), N: rapid.IntRange(0, 400).Draw(rt, "n")}
